@@ -446,16 +446,76 @@ func genC12(g *Rng, tier string, emit func(Op)) {
 				panic(err)
 			}
 			zero := new(big.Int).Mod(cval, pk.N)
+			falseBound := new(big.Int).Add(m1, bi(1000000000))
+			// the statement (commitments and descriptor) is part of the hash since d9916c2
+			contribs = append(contribs, cval, cval, cval, cval, falseBound, bi(1), bi(1), bi(8))
 			for i := 0; i < 5; i++ {
 				contribs = append(contribs, zero)
 			}
 			c := gabi.VerifCreateChallenge(ctx, nonce, contribs, false)
 			fp := b.CreateProof(c).(*gabi.ProofD)
 			tf := proofDTree(fp)
-			falseBound := new(big.Int).Add(m1, bi(1000000000))
 			tf["rangeproofs"] = T{"1": []any{T{"Cs": Is([]*big.Int{cval, cval, cval, cval}), "ds": Is([]*big.Int{bi(1), bi(1), bi(1), bi(1)}),
 				"vs": Is([]*big.Int{bi(1), bi(1), bi(1), bi(1)}), "v5": I(bi(1)), "l_d": 8, "sign": 1, "a": uint64(1), "k": I(falseBound)}}}
 			emit(verifyDOp(kp.id, tf, ctx, nonce, false, "rp-forged-nonunit-commitments", "reject").with("fkey", "C12/nonunit-commitments"))
+		}
+		// the descriptor of a range proof (K, factor, sign, l_d) and its commitments C_i are not part
+		// of what is hashed into the challenge - only the reconstructed commitments are. A holder
+		// fixes those first (T_0 = R^(E - r_m) for a huge E, T_i = R^x_i S^y_i), computes the
+		// challenge c, and THEN chooses the square roots d_i (from E mod c), the C_i and the bound
+		// K = m - sum d_i^2 + (E div c) > m that make everything reconstruct: a verifying proof of
+		// the false statement m >= K. Needs nothing but the holder's own credential.
+		for _, issig := range []bool{false, true} {
+			b, err := cred.CreateDisclosureProofBuilder([]int{3}, nil, false)
+			if err != nil {
+				panic(err)
+			}
+			contribs, err := b.Commit(map[string]*big.Int{"secretkey": g.bits(592)})
+			if err != nil {
+				panic(err)
+			}
+			_, _, attrRand := b.VerifRandomizers()
+			mrand := attrRand[1]
+			R := pk.R[1]
+			pow := func(bs, e *big.Int) *big.Int {
+				if e.Sign() < 0 {
+					return new(big.Int).Exp(new(big.Int).ModInverse(bs, pk.N), new(big.Int).Neg(e), pk.N)
+				}
+				return new(big.Int).Exp(bs, e, pk.N)
+			}
+			mulmod := func(x, y *big.Int) *big.Int { return new(big.Int).Mod(new(big.Int).Mul(x, y), pk.N) }
+			xs := []*big.Int{new(big.Int).Lsh(bi(1), 128), bi(1), bi(0), bi(0)}
+			ys, vs := make([]*big.Int, 4), make([]*big.Int, 4)
+			for i := range ys {
+				ys[i], vs[i] = g.bits(200), new(big.Int).Add(g.bits(100), bi(1))
+			}
+			E := g.exactBits(256 + 291)
+			contribs = append(contribs, pow(R, new(big.Int).Sub(E, mrand)))
+			for i := range xs {
+				contribs = append(contribs, mulmod(pow(R, xs[i]), pow(pk.S, ys[i])))
+			}
+			c := gabi.VerifCreateChallenge(ctx, nonce, contribs, issig)
+			r := new(big.Int).Mod(E, c)
+			ds := []*big.Int{new(big.Int).Rsh(r, 128), new(big.Int).And(r, new(big.Int).Sub(xs[0], bi(1))), bi(0), bi(0)}
+			tt := new(big.Int).Div(new(big.Int).Sub(E, r), c)
+			k := new(big.Int).Sub(m1, new(big.Int).Add(new(big.Int).Mul(ds[0], ds[0]), new(big.Int).Mul(ds[1], ds[1])))
+			k.Add(k, tt)
+			if k.Cmp(m1) <= 0 {
+				continue
+			}
+			var cs, dres, vres []*big.Int
+			v5 := bi(0)
+			for i := range xs {
+				cs = append(cs, mulmod(pow(R, ds[i]), pow(pk.S, vs[i])))
+				dr := new(big.Int).Add(xs[i], new(big.Int).Mul(c, ds[i]))
+				dres = append(dres, dr)
+				vres = append(vres, new(big.Int).Add(ys[i], new(big.Int).Mul(c, vs[i])))
+				v5.Add(v5, new(big.Int).Mul(vs[i], dr))
+			}
+			fp := b.CreateProof(c).(*gabi.ProofD)
+			tf := proofDTree(fp)
+			tf["rangeproofs"] = T{"1": []any{T{"Cs": Is(cs), "ds": Is(dres), "vs": Is(vres), "v5": I(v5), "l_d": 128, "sign": 1, "a": uint64(1), "k": I(k)}}}
+			emit(verifyDOp(kp.id, tf, ctx, nonce, issig, "rp-forged-descriptor-chosen-after-challenge", "reject").with("fkey", "C12/descriptor-not-in-challenge"))
 		}
 		// the same with ONE commitment that is no unit (0 or N) among honest ones, at every position:
 		// the relation that links the squares to the attribute contains each C_i to a positive
@@ -487,7 +547,9 @@ func genC12(g *Rng, tier string, emit func(Op)) {
 					c.Mul(c, new(big.Int).Exp(pk.S, vr[i], pk.N)).Mod(c, pk.N)
 					rpc = append(rpc, c)
 				}
-				c := gabi.VerifCreateChallenge(ctx, nonce, append(contribs, rpc...), false)
+				falseBound := new(big.Int).Add(m1, bi(1000000000))
+				stmt := append(append([]*big.Int{}, cs...), falseBound, bi(1), bi(1), bi(ld))
+				c := gabi.VerifCreateChallenge(ctx, nonce, append(append(contribs, stmt...), rpc...), false)
 				fp := b.CreateProof(c).(*gabi.ProofD)
 				dres, vres := make([]*big.Int, 4), make([]*big.Int, 4)
 				for i := 0; i < 4; i++ {
@@ -495,7 +557,6 @@ func genC12(g *Rng, tier string, emit func(Op)) {
 					vres[i] = new(big.Int).Add(new(big.Int).Mul(c, vs[i]), vr[i])
 				}
 				tf := proofDTree(fp)
-				falseBound := new(big.Int).Add(m1, bi(1000000000))
 				tf["rangeproofs"] = T{"1": []any{T{"Cs": Is(cs), "ds": Is(dres), "vs": Is(vres), "v5": I(bi(1)), "l_d": ld, "sign": 1, "a": uint64(1), "k": I(falseBound)}}}
 				emit(verifyDOp(kp.id, tf, ctx, nonce, false, fmt.Sprintf("rp-forged-one-nonunit-commitment-%d", j), "reject").with("fkey", "C12/nonunit-commitments"))
 			}
